@@ -93,14 +93,13 @@ package apicodec
 //@   ensures result1 != "" && forall k []byte :: inRange(k, start, end) <==> (result0 <= menc(enc(c, k)) && menc(enc(c, k)) < result1)
 
 // (A region end key is either empty = unbounded or the encoding of a non-empty key: the encoding of the empty key would
-// decode to "unbounded". PD never reports such a bound; stated as a precondition.)
+// decode to "unbounded". PD never reports such a bound; the postcondition is stated for well-formed bounds only.)
 //@ func (*codecV2) DecodeRegionRange
 //@   prop C15
 //@   bytes: key
 //@   requires ksOK(c)
-//@   requires wellformed: encodedEnd != menc("")
 //@   modifies nothing
-//@   ensures same: result2 == nil ==> forall k []byte :: inRange(k, result0, result1) <==> inRange(menc(enc(c, k)), encodedStart, encodedEnd)
+//@   ensures same: result2 == nil && encodedEnd != menc("") ==> forall k []byte :: inRange(k, result0, result1) <==> inRange(menc(enc(c, k)), encodedStart, encodedEnd)
 
 // ---- lists of keys, mutations, pairs and ranges: element-wise encoding into fresh lists; the inputs are left alone ----
 //@ func (*codecV2) encodeKeys
@@ -216,3 +215,111 @@ package apicodec
 //@   ensures storesafets: req.Type == tikvrpc.CmdStoreSafeTS ==> result0.Req != req.Req && result0.Req.(*kvrpcpb.StoreSafeTSRequest).KeyRange != nil && rangeEnc(c, old(req.Req.(*kvrpcpb.StoreSafeTSRequest).KeyRange.StartKey), old(req.Req.(*kvrpcpb.StoreSafeTSRequest).KeyRange.EndKey), result0.Req.(*kvrpcpb.StoreSafeTSRequest).KeyRange.StartKey, result0.Req.(*kvrpcpb.StoreSafeTSRequest).KeyRange.EndKey)
 //@   ensures mvccgetbykey: req.Type == tikvrpc.CmdMvccGetByKey ==> result0.Req != req.Req && result0.Req.(*kvrpcpb.MvccGetByKeyRequest).Key == enc(c, old(req.Req.(*kvrpcpb.MvccGetByKeyRequest).Key)) && req.Req.(*kvrpcpb.MvccGetByKeyRequest).Key == old(req.Req.(*kvrpcpb.MvccGetByKeyRequest).Key)
 //@   ensures splitregion: req.Type == tikvrpc.CmdSplitRegion ==> result0.Req != req.Req && keysEnc(c, old(req.Req.(*kvrpcpb.SplitRegionRequest).SplitKeys), result0.Req.(*kvrpcpb.SplitRegionRequest).SplitKeys)
+
+// ---- response side -----------------------------------------------------------------------------------------------
+// decoded(c, w, k): k is what the wire key w decodes to - the empty key stays empty, any other wire key is the wire
+// form of k.
+//@ spec func decoded(c *codecV2, w []byte, k []byte) bool { return ite(w == "", k == "", enc(c, k) == w) }
+
+// Every key of every structured part of a key error is decoded in place (whatever message strings the error also
+// carries). Lock descriptions, wait chains and debug info are decoded by their own functions (not yet under contract).
+//@ func (*codecV2) decodeKeyError
+//@   prop C15
+//@   bytes: key
+//@   opaque-callee decodeLockInfo decodeMvccInfo
+//@   ensures nilsafe: keyError == nil ==> result0 == nil && result1 == nil
+//@   ensures same: result1 == nil && keyError != nil ==> result0 == keyError
+//@   ensures conflict: result1 == nil && keyError != nil && keyError.Conflict != nil ==> decoded(c, old(keyError.Conflict.Key), keyError.Conflict.Key) && decoded(c, old(keyError.Conflict.Primary), keyError.Conflict.Primary)
+//@   ensures exist: result1 == nil && keyError != nil && keyError.AlreadyExist != nil ==> decoded(c, old(keyError.AlreadyExist.Key), keyError.AlreadyExist.Key)
+//@   ensures deadlock: result1 == nil && keyError != nil && keyError.Deadlock != nil ==> decoded(c, old(keyError.Deadlock.LockKey), keyError.Deadlock.LockKey) && decoded(c, old(keyError.Deadlock.DeadlockKey), keyError.Deadlock.DeadlockKey)
+//@   ensures expired: result1 == nil && keyError != nil && keyError.CommitTsExpired != nil ==> decoded(c, old(keyError.CommitTsExpired.Key), keyError.CommitTsExpired.Key)
+//@   ensures notfound: result1 == nil && keyError != nil && keyError.TxnNotFound != nil ==> decoded(c, old(keyError.TxnNotFound.PrimaryKey), keyError.TxnNotFound.PrimaryKey)
+//@   ensures assertion: result1 == nil && keyError != nil && keyError.AssertionFailed != nil ==> decoded(c, old(keyError.AssertionFailed.Key), keyError.AssertionFailed.Key)
+//@   ensures locknotfound: result1 == nil && keyError != nil && keyError.TxnLockNotFound != nil ==> decoded(c, old(keyError.TxnLockNotFound.Key), keyError.TxnLockNotFound.Key)
+
+// A lock description without nested shared-lock descriptions: its key, primary and every secondary are decoded in place.
+// (With nested descriptions the same is done recursively; that case - possible aliasing between the nested messages - is
+// not specified here.)
+//@ spec func lockDecoded(c *codecV2, info *kvrpcpb.LockInfo, k0 []byte, p0 []byte) bool { return decoded(c, k0, info.Key) && decoded(c, p0, info.PrimaryLock) }
+//@ func (*codecV2) decodeLockInfo
+//@   prop C15
+//@   bytes: key
+//@   ensures nilsafe: info == nil ==> result0 == nil && result1 == nil
+//@   ensures own: result1 == nil && info != nil && old(len(info.SharedLockInfos)) == 0 ==> result0 == info && lockDecoded(c, info, old(info.Key), old(info.PrimaryLock))
+//@   ensures secondaries: result1 == nil && info != nil && old(len(info.SharedLockInfos)) == 0 ==> len(info.Secondaries) == old(len(info.Secondaries)) &&
+//@       forall i int :: 0 <= i && i < len(info.Secondaries) ==> decoded(c, old(info.Secondaries[i]), info.Secondaries[i])
+//@   loop 1 invariant own: info.SharedLockInfos == old(info.SharedLockInfos) && info.Secondaries == old(info.Secondaries) && lockDecoded(c, info, old(info.Key), old(info.PrimaryLock)) && -1 <= rangeindex && rangeindex < len(info.Secondaries)
+//@   loop 1 invariant done: forall i int :: 0 <= i && i <= rangeindex ==> decoded(c, old(info.Secondaries[i]), info.Secondaries[i])
+//@   loop 1 invariant todo: forall i int :: rangeindex < i && i < len(info.Secondaries) ==> info.Secondaries[i] == old(info.Secondaries[i])
+//@   loop 2 invariant flat: old(len(info.SharedLockInfos)) == 0 ==> info.Secondaries == old(info.Secondaries) && lockDecoded(c, info, old(info.Key), old(info.PrimaryLock)) &&
+//@       forall i int :: 0 <= i && i < len(info.Secondaries) ==> decoded(c, old(info.Secondaries[i]), info.Secondaries[i])
+//@   loop 2 invariant idx: len(info.SharedLockInfos) == old(len(info.SharedLockInfos)) && -1 <= rangeindex
+
+//@ func (*codecV2) decodeRegionError
+//@   prop C15
+//@   bytes: key
+//@   requires ksOK(c)
+//@   ensures nilsafe: regionError == nil ==> result0 == nil && result1 == nil
+//@   ensures key: result1 == nil && regionError != nil ==> result0 == regionError && (regionError.KeyNotInRegion != nil ==> decoded(c, old(regionError.KeyNotInRegion.Key), regionError.KeyNotInRegion.Key))
+
+// decodePairs builds fresh pairs whose keys are the decoded keys (values untouched); the input pairs are left alone.
+//@ func (*codecV2) decodePairs
+//@   prop C15
+//@   bytes: key
+//@   requires pairsOK(encodedPairs)
+//@   opaque-callee decodeKeyError
+//@   ensures all: result1 == nil ==> len(result0) == len(encodedPairs) && forall i int :: 0 <= i && i < len(encodedPairs) ==> result0[i] != nil && decoded(c, encodedPairs[i].Key, result0[i].Key) && result0[i].Value == encodedPairs[i].Value
+//@   loop 1 invariant all: len(pairs) == rangeindex + 1 && -1 <= rangeindex && rangeindex < len(encodedPairs) && forall i int :: 0 <= i && i <= rangeindex ==> pairs[i] != nil && fresh(pairs[i]) && decoded(c, encodedPairs[i].Key, pairs[i].Key) && pairs[i].Value == encodedPairs[i].Value
+//@   loop 1 invariant kept: forall i int :: 0 <= i && i < len(encodedPairs) ==> encodedPairs[i] == old(encodedPairs[i]) && encodedPairs[i].Key == old(encodedPairs[i].Key) && encodedPairs[i].Value == old(encodedPairs[i].Value)
+
+// DecodeResponse decodes in place, per command (table: /verif/tools/gen_c15_decode_contract.py): the region error, the
+// key error and every pair of the response message that belongs to the command. Witness fields stand for "this part was
+// handed to its decoder": KeyNotInRegion.Key for the region error, Conflict.Key/Primary for the key error; the decoders
+// themselves are specified above. Not specified here: lists of key errors and of lock descriptions, lock descriptions
+// with nested shared locks, MVCC debug info, region lists, coprocessor and MPP responses, and the response-level key
+// error of the three responses that also carry pairs (Scan, BatchGet, BufferBatchGet).
+//@ func (*codecV2) DecodeResponse
+//@   prop C15
+//@   bytes: key
+//@   may-panic
+//@   requires ksOK(c)
+//@   opaque-callee decodeKeyErrors decodeLockInfos decodeLockInfo decodeMvccInfo decodeRegions decodeCopRange
+//@   requires scanpairs: req.Type == tikvrpc.CmdScan ==> pairsOK(resp.Resp.(*kvrpcpb.ScanResponse).Pairs)
+//@   requires batchgetpairs: req.Type == tikvrpc.CmdBatchGet ==> pairsOK(resp.Resp.(*kvrpcpb.BatchGetResponse).Pairs)
+//@   requires bufferbatchgetpairs: req.Type == tikvrpc.CmdBufferBatchGet ==> pairsOK(resp.Resp.(*kvrpcpb.BufferBatchGetResponse).Pairs)
+//@   requires rawbatchgetpairs: req.Type == tikvrpc.CmdRawBatchGet ==> pairsOK(resp.Resp.(*kvrpcpb.RawBatchGetResponse).Pairs)
+//@   requires rawscankvs: req.Type == tikvrpc.CmdRawScan ==> pairsOK(resp.Resp.(*kvrpcpb.RawScanResponse).Kvs)
+//@   ensures get: req.Type == tikvrpc.CmdGet && result1 == nil ==> result0 == resp && (resp.Resp.(*kvrpcpb.GetResponse).RegionError != nil && resp.Resp.(*kvrpcpb.GetResponse).RegionError.KeyNotInRegion != nil ==> decoded(c, old(resp.Resp.(*kvrpcpb.GetResponse).RegionError.KeyNotInRegion.Key), resp.Resp.(*kvrpcpb.GetResponse).RegionError.KeyNotInRegion.Key)) && (resp.Resp.(*kvrpcpb.GetResponse).Error != nil && resp.Resp.(*kvrpcpb.GetResponse).Error.Conflict != nil ==> decoded(c, old(resp.Resp.(*kvrpcpb.GetResponse).Error.Conflict.Key), resp.Resp.(*kvrpcpb.GetResponse).Error.Conflict.Key) && decoded(c, old(resp.Resp.(*kvrpcpb.GetResponse).Error.Conflict.Primary), resp.Resp.(*kvrpcpb.GetResponse).Error.Conflict.Primary))
+//@   ensures scan: req.Type == tikvrpc.CmdScan && result1 == nil ==> result0 == resp && (resp.Resp.(*kvrpcpb.ScanResponse).RegionError != nil && resp.Resp.(*kvrpcpb.ScanResponse).RegionError.KeyNotInRegion != nil ==> decoded(c, old(resp.Resp.(*kvrpcpb.ScanResponse).RegionError.KeyNotInRegion.Key), resp.Resp.(*kvrpcpb.ScanResponse).RegionError.KeyNotInRegion.Key)) && len(resp.Resp.(*kvrpcpb.ScanResponse).Pairs) == old(len(resp.Resp.(*kvrpcpb.ScanResponse).Pairs)) && (forall i int :: 0 <= i && i < len(resp.Resp.(*kvrpcpb.ScanResponse).Pairs) ==> resp.Resp.(*kvrpcpb.ScanResponse).Pairs[i] != nil && decoded(c, old(resp.Resp.(*kvrpcpb.ScanResponse).Pairs[i].Key), resp.Resp.(*kvrpcpb.ScanResponse).Pairs[i].Key))
+//@   ensures prewrite: req.Type == tikvrpc.CmdPrewrite && result1 == nil ==> result0 == resp && (resp.Resp.(*kvrpcpb.PrewriteResponse).RegionError != nil && resp.Resp.(*kvrpcpb.PrewriteResponse).RegionError.KeyNotInRegion != nil ==> decoded(c, old(resp.Resp.(*kvrpcpb.PrewriteResponse).RegionError.KeyNotInRegion.Key), resp.Resp.(*kvrpcpb.PrewriteResponse).RegionError.KeyNotInRegion.Key))
+//@   ensures commit: req.Type == tikvrpc.CmdCommit && result1 == nil ==> result0 == resp && (resp.Resp.(*kvrpcpb.CommitResponse).RegionError != nil && resp.Resp.(*kvrpcpb.CommitResponse).RegionError.KeyNotInRegion != nil ==> decoded(c, old(resp.Resp.(*kvrpcpb.CommitResponse).RegionError.KeyNotInRegion.Key), resp.Resp.(*kvrpcpb.CommitResponse).RegionError.KeyNotInRegion.Key)) && (resp.Resp.(*kvrpcpb.CommitResponse).Error != nil && resp.Resp.(*kvrpcpb.CommitResponse).Error.Conflict != nil ==> decoded(c, old(resp.Resp.(*kvrpcpb.CommitResponse).Error.Conflict.Key), resp.Resp.(*kvrpcpb.CommitResponse).Error.Conflict.Key) && decoded(c, old(resp.Resp.(*kvrpcpb.CommitResponse).Error.Conflict.Primary), resp.Resp.(*kvrpcpb.CommitResponse).Error.Conflict.Primary))
+//@   ensures cleanup: req.Type == tikvrpc.CmdCleanup && result1 == nil ==> result0 == resp && (resp.Resp.(*kvrpcpb.CleanupResponse).RegionError != nil && resp.Resp.(*kvrpcpb.CleanupResponse).RegionError.KeyNotInRegion != nil ==> decoded(c, old(resp.Resp.(*kvrpcpb.CleanupResponse).RegionError.KeyNotInRegion.Key), resp.Resp.(*kvrpcpb.CleanupResponse).RegionError.KeyNotInRegion.Key)) && (resp.Resp.(*kvrpcpb.CleanupResponse).Error != nil && resp.Resp.(*kvrpcpb.CleanupResponse).Error.Conflict != nil ==> decoded(c, old(resp.Resp.(*kvrpcpb.CleanupResponse).Error.Conflict.Key), resp.Resp.(*kvrpcpb.CleanupResponse).Error.Conflict.Key) && decoded(c, old(resp.Resp.(*kvrpcpb.CleanupResponse).Error.Conflict.Primary), resp.Resp.(*kvrpcpb.CleanupResponse).Error.Conflict.Primary))
+//@   ensures batchget: req.Type == tikvrpc.CmdBatchGet && result1 == nil ==> result0 == resp && (resp.Resp.(*kvrpcpb.BatchGetResponse).RegionError != nil && resp.Resp.(*kvrpcpb.BatchGetResponse).RegionError.KeyNotInRegion != nil ==> decoded(c, old(resp.Resp.(*kvrpcpb.BatchGetResponse).RegionError.KeyNotInRegion.Key), resp.Resp.(*kvrpcpb.BatchGetResponse).RegionError.KeyNotInRegion.Key)) && len(resp.Resp.(*kvrpcpb.BatchGetResponse).Pairs) == old(len(resp.Resp.(*kvrpcpb.BatchGetResponse).Pairs)) && (forall i int :: 0 <= i && i < len(resp.Resp.(*kvrpcpb.BatchGetResponse).Pairs) ==> resp.Resp.(*kvrpcpb.BatchGetResponse).Pairs[i] != nil && decoded(c, old(resp.Resp.(*kvrpcpb.BatchGetResponse).Pairs[i].Key), resp.Resp.(*kvrpcpb.BatchGetResponse).Pairs[i].Key))
+//@   ensures batchrollback: req.Type == tikvrpc.CmdBatchRollback && result1 == nil ==> result0 == resp && (resp.Resp.(*kvrpcpb.BatchRollbackResponse).RegionError != nil && resp.Resp.(*kvrpcpb.BatchRollbackResponse).RegionError.KeyNotInRegion != nil ==> decoded(c, old(resp.Resp.(*kvrpcpb.BatchRollbackResponse).RegionError.KeyNotInRegion.Key), resp.Resp.(*kvrpcpb.BatchRollbackResponse).RegionError.KeyNotInRegion.Key)) && (resp.Resp.(*kvrpcpb.BatchRollbackResponse).Error != nil && resp.Resp.(*kvrpcpb.BatchRollbackResponse).Error.Conflict != nil ==> decoded(c, old(resp.Resp.(*kvrpcpb.BatchRollbackResponse).Error.Conflict.Key), resp.Resp.(*kvrpcpb.BatchRollbackResponse).Error.Conflict.Key) && decoded(c, old(resp.Resp.(*kvrpcpb.BatchRollbackResponse).Error.Conflict.Primary), resp.Resp.(*kvrpcpb.BatchRollbackResponse).Error.Conflict.Primary))
+//@   ensures scanlock: req.Type == tikvrpc.CmdScanLock && result1 == nil ==> result0 == resp && (resp.Resp.(*kvrpcpb.ScanLockResponse).RegionError != nil && resp.Resp.(*kvrpcpb.ScanLockResponse).RegionError.KeyNotInRegion != nil ==> decoded(c, old(resp.Resp.(*kvrpcpb.ScanLockResponse).RegionError.KeyNotInRegion.Key), resp.Resp.(*kvrpcpb.ScanLockResponse).RegionError.KeyNotInRegion.Key)) && (resp.Resp.(*kvrpcpb.ScanLockResponse).Error != nil && resp.Resp.(*kvrpcpb.ScanLockResponse).Error.Conflict != nil ==> decoded(c, old(resp.Resp.(*kvrpcpb.ScanLockResponse).Error.Conflict.Key), resp.Resp.(*kvrpcpb.ScanLockResponse).Error.Conflict.Key) && decoded(c, old(resp.Resp.(*kvrpcpb.ScanLockResponse).Error.Conflict.Primary), resp.Resp.(*kvrpcpb.ScanLockResponse).Error.Conflict.Primary))
+//@   ensures resolvelock: req.Type == tikvrpc.CmdResolveLock && result1 == nil ==> result0 == resp && (resp.Resp.(*kvrpcpb.ResolveLockResponse).RegionError != nil && resp.Resp.(*kvrpcpb.ResolveLockResponse).RegionError.KeyNotInRegion != nil ==> decoded(c, old(resp.Resp.(*kvrpcpb.ResolveLockResponse).RegionError.KeyNotInRegion.Key), resp.Resp.(*kvrpcpb.ResolveLockResponse).RegionError.KeyNotInRegion.Key)) && (resp.Resp.(*kvrpcpb.ResolveLockResponse).Error != nil && resp.Resp.(*kvrpcpb.ResolveLockResponse).Error.Conflict != nil ==> decoded(c, old(resp.Resp.(*kvrpcpb.ResolveLockResponse).Error.Conflict.Key), resp.Resp.(*kvrpcpb.ResolveLockResponse).Error.Conflict.Key) && decoded(c, old(resp.Resp.(*kvrpcpb.ResolveLockResponse).Error.Conflict.Primary), resp.Resp.(*kvrpcpb.ResolveLockResponse).Error.Conflict.Primary))
+//@   ensures deleterange: req.Type == tikvrpc.CmdDeleteRange && result1 == nil ==> result0 == resp && (resp.Resp.(*kvrpcpb.DeleteRangeResponse).RegionError != nil && resp.Resp.(*kvrpcpb.DeleteRangeResponse).RegionError.KeyNotInRegion != nil ==> decoded(c, old(resp.Resp.(*kvrpcpb.DeleteRangeResponse).RegionError.KeyNotInRegion.Key), resp.Resp.(*kvrpcpb.DeleteRangeResponse).RegionError.KeyNotInRegion.Key))
+//@   ensures pessimisticlock: req.Type == tikvrpc.CmdPessimisticLock && result1 == nil ==> result0 == resp && (resp.Resp.(*kvrpcpb.PessimisticLockResponse).RegionError != nil && resp.Resp.(*kvrpcpb.PessimisticLockResponse).RegionError.KeyNotInRegion != nil ==> decoded(c, old(resp.Resp.(*kvrpcpb.PessimisticLockResponse).RegionError.KeyNotInRegion.Key), resp.Resp.(*kvrpcpb.PessimisticLockResponse).RegionError.KeyNotInRegion.Key))
+//@   ensures pessimisticrollback: req.Type == tikvrpc.CmdPessimisticRollback && result1 == nil ==> result0 == resp && (resp.Resp.(*kvrpcpb.PessimisticRollbackResponse).RegionError != nil && resp.Resp.(*kvrpcpb.PessimisticRollbackResponse).RegionError.KeyNotInRegion != nil ==> decoded(c, old(resp.Resp.(*kvrpcpb.PessimisticRollbackResponse).RegionError.KeyNotInRegion.Key), resp.Resp.(*kvrpcpb.PessimisticRollbackResponse).RegionError.KeyNotInRegion.Key))
+//@   ensures txnheartbeat: req.Type == tikvrpc.CmdTxnHeartBeat && result1 == nil ==> result0 == resp && (resp.Resp.(*kvrpcpb.TxnHeartBeatResponse).RegionError != nil && resp.Resp.(*kvrpcpb.TxnHeartBeatResponse).RegionError.KeyNotInRegion != nil ==> decoded(c, old(resp.Resp.(*kvrpcpb.TxnHeartBeatResponse).RegionError.KeyNotInRegion.Key), resp.Resp.(*kvrpcpb.TxnHeartBeatResponse).RegionError.KeyNotInRegion.Key)) && (resp.Resp.(*kvrpcpb.TxnHeartBeatResponse).Error != nil && resp.Resp.(*kvrpcpb.TxnHeartBeatResponse).Error.Conflict != nil ==> decoded(c, old(resp.Resp.(*kvrpcpb.TxnHeartBeatResponse).Error.Conflict.Key), resp.Resp.(*kvrpcpb.TxnHeartBeatResponse).Error.Conflict.Key) && decoded(c, old(resp.Resp.(*kvrpcpb.TxnHeartBeatResponse).Error.Conflict.Primary), resp.Resp.(*kvrpcpb.TxnHeartBeatResponse).Error.Conflict.Primary))
+//@   ensures checktxnstatus: req.Type == tikvrpc.CmdCheckTxnStatus && result1 == nil ==> result0 == resp && (resp.Resp.(*kvrpcpb.CheckTxnStatusResponse).RegionError != nil && resp.Resp.(*kvrpcpb.CheckTxnStatusResponse).RegionError.KeyNotInRegion != nil ==> decoded(c, old(resp.Resp.(*kvrpcpb.CheckTxnStatusResponse).RegionError.KeyNotInRegion.Key), resp.Resp.(*kvrpcpb.CheckTxnStatusResponse).RegionError.KeyNotInRegion.Key)) && (resp.Resp.(*kvrpcpb.CheckTxnStatusResponse).Error != nil && resp.Resp.(*kvrpcpb.CheckTxnStatusResponse).Error.Conflict != nil ==> decoded(c, old(resp.Resp.(*kvrpcpb.CheckTxnStatusResponse).Error.Conflict.Key), resp.Resp.(*kvrpcpb.CheckTxnStatusResponse).Error.Conflict.Key) && decoded(c, old(resp.Resp.(*kvrpcpb.CheckTxnStatusResponse).Error.Conflict.Primary), resp.Resp.(*kvrpcpb.CheckTxnStatusResponse).Error.Conflict.Primary))
+//@   ensures checksecondarylocks: req.Type == tikvrpc.CmdCheckSecondaryLocks && result1 == nil ==> result0 == resp && (resp.Resp.(*kvrpcpb.CheckSecondaryLocksResponse).RegionError != nil && resp.Resp.(*kvrpcpb.CheckSecondaryLocksResponse).RegionError.KeyNotInRegion != nil ==> decoded(c, old(resp.Resp.(*kvrpcpb.CheckSecondaryLocksResponse).RegionError.KeyNotInRegion.Key), resp.Resp.(*kvrpcpb.CheckSecondaryLocksResponse).RegionError.KeyNotInRegion.Key)) && (resp.Resp.(*kvrpcpb.CheckSecondaryLocksResponse).Error != nil && resp.Resp.(*kvrpcpb.CheckSecondaryLocksResponse).Error.Conflict != nil ==> decoded(c, old(resp.Resp.(*kvrpcpb.CheckSecondaryLocksResponse).Error.Conflict.Key), resp.Resp.(*kvrpcpb.CheckSecondaryLocksResponse).Error.Conflict.Key) && decoded(c, old(resp.Resp.(*kvrpcpb.CheckSecondaryLocksResponse).Error.Conflict.Primary), resp.Resp.(*kvrpcpb.CheckSecondaryLocksResponse).Error.Conflict.Primary))
+//@   ensures flush: req.Type == tikvrpc.CmdFlush && result1 == nil ==> result0 == resp && (resp.Resp.(*kvrpcpb.FlushResponse).RegionError != nil && resp.Resp.(*kvrpcpb.FlushResponse).RegionError.KeyNotInRegion != nil ==> decoded(c, old(resp.Resp.(*kvrpcpb.FlushResponse).RegionError.KeyNotInRegion.Key), resp.Resp.(*kvrpcpb.FlushResponse).RegionError.KeyNotInRegion.Key))
+//@   ensures bufferbatchget: req.Type == tikvrpc.CmdBufferBatchGet && result1 == nil ==> result0 == resp && (resp.Resp.(*kvrpcpb.BufferBatchGetResponse).RegionError != nil && resp.Resp.(*kvrpcpb.BufferBatchGetResponse).RegionError.KeyNotInRegion != nil ==> decoded(c, old(resp.Resp.(*kvrpcpb.BufferBatchGetResponse).RegionError.KeyNotInRegion.Key), resp.Resp.(*kvrpcpb.BufferBatchGetResponse).RegionError.KeyNotInRegion.Key)) && len(resp.Resp.(*kvrpcpb.BufferBatchGetResponse).Pairs) == old(len(resp.Resp.(*kvrpcpb.BufferBatchGetResponse).Pairs)) && (forall i int :: 0 <= i && i < len(resp.Resp.(*kvrpcpb.BufferBatchGetResponse).Pairs) ==> resp.Resp.(*kvrpcpb.BufferBatchGetResponse).Pairs[i] != nil && decoded(c, old(resp.Resp.(*kvrpcpb.BufferBatchGetResponse).Pairs[i].Key), resp.Resp.(*kvrpcpb.BufferBatchGetResponse).Pairs[i].Key))
+//@   ensures flashbacktoversion: req.Type == tikvrpc.CmdFlashbackToVersion && result1 == nil ==> result0 == resp && (resp.Resp.(*kvrpcpb.FlashbackToVersionResponse).RegionError != nil && resp.Resp.(*kvrpcpb.FlashbackToVersionResponse).RegionError.KeyNotInRegion != nil ==> decoded(c, old(resp.Resp.(*kvrpcpb.FlashbackToVersionResponse).RegionError.KeyNotInRegion.Key), resp.Resp.(*kvrpcpb.FlashbackToVersionResponse).RegionError.KeyNotInRegion.Key))
+//@   ensures prepareflashbacktoversion: req.Type == tikvrpc.CmdPrepareFlashbackToVersion && result1 == nil ==> result0 == resp && (resp.Resp.(*kvrpcpb.PrepareFlashbackToVersionResponse).RegionError != nil && resp.Resp.(*kvrpcpb.PrepareFlashbackToVersionResponse).RegionError.KeyNotInRegion != nil ==> decoded(c, old(resp.Resp.(*kvrpcpb.PrepareFlashbackToVersionResponse).RegionError.KeyNotInRegion.Key), resp.Resp.(*kvrpcpb.PrepareFlashbackToVersionResponse).RegionError.KeyNotInRegion.Key))
+//@   ensures rawget: req.Type == tikvrpc.CmdRawGet && result1 == nil ==> result0 == resp && (resp.Resp.(*kvrpcpb.RawGetResponse).RegionError != nil && resp.Resp.(*kvrpcpb.RawGetResponse).RegionError.KeyNotInRegion != nil ==> decoded(c, old(resp.Resp.(*kvrpcpb.RawGetResponse).RegionError.KeyNotInRegion.Key), resp.Resp.(*kvrpcpb.RawGetResponse).RegionError.KeyNotInRegion.Key))
+//@   ensures rawbatchget: req.Type == tikvrpc.CmdRawBatchGet && result1 == nil ==> result0 == resp && (resp.Resp.(*kvrpcpb.RawBatchGetResponse).RegionError != nil && resp.Resp.(*kvrpcpb.RawBatchGetResponse).RegionError.KeyNotInRegion != nil ==> decoded(c, old(resp.Resp.(*kvrpcpb.RawBatchGetResponse).RegionError.KeyNotInRegion.Key), resp.Resp.(*kvrpcpb.RawBatchGetResponse).RegionError.KeyNotInRegion.Key)) && len(resp.Resp.(*kvrpcpb.RawBatchGetResponse).Pairs) == old(len(resp.Resp.(*kvrpcpb.RawBatchGetResponse).Pairs)) && (forall i int :: 0 <= i && i < len(resp.Resp.(*kvrpcpb.RawBatchGetResponse).Pairs) ==> resp.Resp.(*kvrpcpb.RawBatchGetResponse).Pairs[i] != nil && decoded(c, old(resp.Resp.(*kvrpcpb.RawBatchGetResponse).Pairs[i].Key), resp.Resp.(*kvrpcpb.RawBatchGetResponse).Pairs[i].Key))
+//@   ensures rawput: req.Type == tikvrpc.CmdRawPut && result1 == nil ==> result0 == resp && (resp.Resp.(*kvrpcpb.RawPutResponse).RegionError != nil && resp.Resp.(*kvrpcpb.RawPutResponse).RegionError.KeyNotInRegion != nil ==> decoded(c, old(resp.Resp.(*kvrpcpb.RawPutResponse).RegionError.KeyNotInRegion.Key), resp.Resp.(*kvrpcpb.RawPutResponse).RegionError.KeyNotInRegion.Key))
+//@   ensures rawbatchput: req.Type == tikvrpc.CmdRawBatchPut && result1 == nil ==> result0 == resp && (resp.Resp.(*kvrpcpb.RawBatchPutResponse).RegionError != nil && resp.Resp.(*kvrpcpb.RawBatchPutResponse).RegionError.KeyNotInRegion != nil ==> decoded(c, old(resp.Resp.(*kvrpcpb.RawBatchPutResponse).RegionError.KeyNotInRegion.Key), resp.Resp.(*kvrpcpb.RawBatchPutResponse).RegionError.KeyNotInRegion.Key))
+//@   ensures rawdelete: req.Type == tikvrpc.CmdRawDelete && result1 == nil ==> result0 == resp && (resp.Resp.(*kvrpcpb.RawDeleteResponse).RegionError != nil && resp.Resp.(*kvrpcpb.RawDeleteResponse).RegionError.KeyNotInRegion != nil ==> decoded(c, old(resp.Resp.(*kvrpcpb.RawDeleteResponse).RegionError.KeyNotInRegion.Key), resp.Resp.(*kvrpcpb.RawDeleteResponse).RegionError.KeyNotInRegion.Key))
+//@   ensures rawbatchdelete: req.Type == tikvrpc.CmdRawBatchDelete && result1 == nil ==> result0 == resp && (resp.Resp.(*kvrpcpb.RawBatchDeleteResponse).RegionError != nil && resp.Resp.(*kvrpcpb.RawBatchDeleteResponse).RegionError.KeyNotInRegion != nil ==> decoded(c, old(resp.Resp.(*kvrpcpb.RawBatchDeleteResponse).RegionError.KeyNotInRegion.Key), resp.Resp.(*kvrpcpb.RawBatchDeleteResponse).RegionError.KeyNotInRegion.Key))
+//@   ensures rawdeleterange: req.Type == tikvrpc.CmdRawDeleteRange && result1 == nil ==> result0 == resp && (resp.Resp.(*kvrpcpb.RawDeleteRangeResponse).RegionError != nil && resp.Resp.(*kvrpcpb.RawDeleteRangeResponse).RegionError.KeyNotInRegion != nil ==> decoded(c, old(resp.Resp.(*kvrpcpb.RawDeleteRangeResponse).RegionError.KeyNotInRegion.Key), resp.Resp.(*kvrpcpb.RawDeleteRangeResponse).RegionError.KeyNotInRegion.Key))
+//@   ensures rawscan: req.Type == tikvrpc.CmdRawScan && result1 == nil ==> result0 == resp && (resp.Resp.(*kvrpcpb.RawScanResponse).RegionError != nil && resp.Resp.(*kvrpcpb.RawScanResponse).RegionError.KeyNotInRegion != nil ==> decoded(c, old(resp.Resp.(*kvrpcpb.RawScanResponse).RegionError.KeyNotInRegion.Key), resp.Resp.(*kvrpcpb.RawScanResponse).RegionError.KeyNotInRegion.Key)) && len(resp.Resp.(*kvrpcpb.RawScanResponse).Kvs) == old(len(resp.Resp.(*kvrpcpb.RawScanResponse).Kvs)) && (forall i int :: 0 <= i && i < len(resp.Resp.(*kvrpcpb.RawScanResponse).Kvs) ==> resp.Resp.(*kvrpcpb.RawScanResponse).Kvs[i] != nil && decoded(c, old(resp.Resp.(*kvrpcpb.RawScanResponse).Kvs[i].Key), resp.Resp.(*kvrpcpb.RawScanResponse).Kvs[i].Key))
+//@   ensures getkeyttl: req.Type == tikvrpc.CmdGetKeyTTL && result1 == nil ==> result0 == resp && (resp.Resp.(*kvrpcpb.RawGetKeyTTLResponse).RegionError != nil && resp.Resp.(*kvrpcpb.RawGetKeyTTLResponse).RegionError.KeyNotInRegion != nil ==> decoded(c, old(resp.Resp.(*kvrpcpb.RawGetKeyTTLResponse).RegionError.KeyNotInRegion.Key), resp.Resp.(*kvrpcpb.RawGetKeyTTLResponse).RegionError.KeyNotInRegion.Key))
+//@   ensures rawcompareandswap: req.Type == tikvrpc.CmdRawCompareAndSwap && result1 == nil ==> result0 == resp && (resp.Resp.(*kvrpcpb.RawCASResponse).RegionError != nil && resp.Resp.(*kvrpcpb.RawCASResponse).RegionError.KeyNotInRegion != nil ==> decoded(c, old(resp.Resp.(*kvrpcpb.RawCASResponse).RegionError.KeyNotInRegion.Key), resp.Resp.(*kvrpcpb.RawCASResponse).RegionError.KeyNotInRegion.Key))
+//@   ensures rawchecksum: req.Type == tikvrpc.CmdRawChecksum && result1 == nil ==> result0 == resp && (resp.Resp.(*kvrpcpb.RawChecksumResponse).RegionError != nil && resp.Resp.(*kvrpcpb.RawChecksumResponse).RegionError.KeyNotInRegion != nil ==> decoded(c, old(resp.Resp.(*kvrpcpb.RawChecksumResponse).RegionError.KeyNotInRegion.Key), resp.Resp.(*kvrpcpb.RawChecksumResponse).RegionError.KeyNotInRegion.Key))
+//@   ensures unsafedestroyrange: req.Type == tikvrpc.CmdUnsafeDestroyRange && result1 == nil ==> result0 == resp && (resp.Resp.(*kvrpcpb.UnsafeDestroyRangeResponse).RegionError != nil && resp.Resp.(*kvrpcpb.UnsafeDestroyRangeResponse).RegionError.KeyNotInRegion != nil ==> decoded(c, old(resp.Resp.(*kvrpcpb.UnsafeDestroyRangeResponse).RegionError.KeyNotInRegion.Key), resp.Resp.(*kvrpcpb.UnsafeDestroyRangeResponse).RegionError.KeyNotInRegion.Key))
+//@   ensures mvccgetbykey: req.Type == tikvrpc.CmdMvccGetByKey && result1 == nil ==> result0 == resp && (resp.Resp.(*kvrpcpb.MvccGetByKeyResponse).RegionError != nil && resp.Resp.(*kvrpcpb.MvccGetByKeyResponse).RegionError.KeyNotInRegion != nil ==> decoded(c, old(resp.Resp.(*kvrpcpb.MvccGetByKeyResponse).RegionError.KeyNotInRegion.Key), resp.Resp.(*kvrpcpb.MvccGetByKeyResponse).RegionError.KeyNotInRegion.Key))
+//@   ensures splitregion: req.Type == tikvrpc.CmdSplitRegion && result1 == nil ==> result0 == resp && (resp.Resp.(*kvrpcpb.SplitRegionResponse).RegionError != nil && resp.Resp.(*kvrpcpb.SplitRegionResponse).RegionError.KeyNotInRegion != nil ==> decoded(c, old(resp.Resp.(*kvrpcpb.SplitRegionResponse).RegionError.KeyNotInRegion.Key), resp.Resp.(*kvrpcpb.SplitRegionResponse).RegionError.KeyNotInRegion.Key))
+//@   ensures gc: req.Type == tikvrpc.CmdGC && result1 == nil ==> result0 == resp && (resp.Resp.(*kvrpcpb.GCResponse).RegionError != nil && resp.Resp.(*kvrpcpb.GCResponse).RegionError.KeyNotInRegion != nil ==> decoded(c, old(resp.Resp.(*kvrpcpb.GCResponse).RegionError.KeyNotInRegion.Key), resp.Resp.(*kvrpcpb.GCResponse).RegionError.KeyNotInRegion.Key)) && (resp.Resp.(*kvrpcpb.GCResponse).Error != nil && resp.Resp.(*kvrpcpb.GCResponse).Error.Conflict != nil ==> decoded(c, old(resp.Resp.(*kvrpcpb.GCResponse).Error.Conflict.Key), resp.Resp.(*kvrpcpb.GCResponse).Error.Conflict.Key) && decoded(c, old(resp.Resp.(*kvrpcpb.GCResponse).Error.Conflict.Primary), resp.Resp.(*kvrpcpb.GCResponse).Error.Conflict.Primary))
